@@ -73,7 +73,7 @@ def c_from_bytes(it, recv, a):
     from vlib.ring import VErr
     circ = "circuit(inflated(inflate(compressed, packed_size_limit(max_constraints))), max_constraints)"
     it.ctx.event("for_each_in_order", circ + ".scalars", (),
-                 (("return_if_none", VOpaque("BlsScalar::from_bytes", [Sym(circ + ".scalars[*]")]), VErr("Error::BlsScalarMalformed")),))
+                 (("try", "BlsScalar::from_bytes(" + circ + ".scalars[*]) is None => Err(Error::BlsScalarMalformed)"),))
     sub_log, sub_exits = [], []
     row, i = Sym("circuit(inflated(inflate(compressed, packed_size_limit(max_constraints))), max_constraints).constraints[*]"), Sym("circuit(inflated(inflate(compressed, packed_size_limit(max_constraints))), max_constraints).constraints[#]")
     poly = VOpaque("get", [Sym("circuit(inflated(inflate(compressed, packed_size_limit(max_constraints))), max_constraints).polynomials"), Sym(canon(row) + ".polynomial")])
